@@ -21,6 +21,8 @@ inductive SOp where
   | add (inst : Nat) (item : Nat)
   | remove (inst : Nat) (idx : Nat)
   | edit (inst : Nat) (idx : Nat)           -- in-place edit of the idx-th item of an instance
+  | assign (inst : Nat) (items : List Nat)  -- `inst.tracks = <any iterable yielding these items>`: the setter fills a list of
+                                            -- the instance's own (tdfData3D.py:261-273, tdfForce3D.py:303-315, platforms setter)
   deriving DecidableEq, Repr
 
 def Store.empty : Store := ⟨[], []⟩
@@ -42,6 +44,7 @@ def Store.step (s : Store) : SOp → Store × Option Nat
   | .decode items => ({ s with cells := s.cells ++ [items] }, some s.cells.length)
   | .add i it => ({ s with cells := s.cells.modify i (· ++ [it]) }, none)
   | .remove i k => ({ s with cells := s.cells.modify i (·.eraseIdx k) }, none)
+  | .assign i items => ({ s with cells := s.cells.modify i (fun _ => items) }, none)
   | .edit i k =>
     match s.itemAt i k with
     | some id => ({ s with edits := id :: s.edits }, none)
